@@ -61,16 +61,26 @@ var ordinalRe = regexp.MustCompile(`(\.ret\d+)?@\d+$`)
 // stableName strips the return-point and ordinal suffixes: findings are keyed by function and clause.
 func stableName(n string) string { return ordinalRe.ReplaceAllString(n, "") }
 
+// Baseline: per property, the functions whose obligations (of that property's families) all discharged on
+// the unchanged tree. Committed; rewritten only by --write-baseline.
 type Baseline struct {
-	Functions map[string]bool `json:"functions"`
+	ByProperty map[string]map[string]bool `json:"by_property"`
+	Functions  map[string]bool            `json:"-"` // view for the property being checked
 }
 
-func loadBaseline(path string) *Baseline {
-	b := &Baseline{Functions: map[string]bool{}}
+func loadBaseline(path, id string) *Baseline {
+	b := &Baseline{ByProperty: map[string]map[string]bool{}}
 	data, err := os.ReadFile(path)
 	if err == nil {
 		json.Unmarshal(data, b)
 	}
+	if b.ByProperty == nil {
+		b.ByProperty = map[string]map[string]bool{}
+	}
+	if b.ByProperty[id] == nil {
+		b.ByProperty[id] = map[string]bool{}
+	}
+	b.Functions = b.ByProperty[id]
 	return b
 }
 
@@ -172,10 +182,12 @@ func cmdCheck(args []string) int {
 		}
 	}
 	exit := 0
+	base := loadBaseline(filepath.Join(root, "baseline_obligations.json"), id)
+	retryFilter = func(k string) bool { return base.Functions[k] }
 	var unguarded []string
 	// unbound contracts
 	for _, k := range targets {
-		if w.Funcs[k] == nil {
+		if w.Funcs[k] == nil && !sp.Contracts[k].Trusted {
 			fmt.Printf("ERROR unbound-contract %s\n", k)
 			exit = 3
 		}
@@ -205,6 +217,11 @@ func cmdCheck(args []string) int {
 				}
 			}
 			if skip {
+				continue
+			}
+			// quick tier: only functions whose obligations all discharged on the unchanged tree (the baseline);
+			// the thorough tier and --write-baseline sweep everything
+			if *tier == "quick" && !*baselineMode && !base.Functions[k] {
 				continue
 			}
 			for _, pre := range cfg.SweepPrefixes {
@@ -300,7 +317,6 @@ func cmdCheck(args []string) int {
 	lemmaObls := verifyLemmas(w, sp, mods, id, work, timeout, confirm)
 
 	kf := loadKnownFindings(filepath.Join(root, "known_findings.json"))
-	base := loadBaseline(filepath.Join(root, "baseline_obligations.json"))
 
 	var reports []oblReport
 	nObl, nDis, nKnown, nViol, nUndecided := 0, 0, 0, 0, 0
@@ -394,7 +410,18 @@ func cmdCheck(args []string) int {
 		}
 		if len(r.Unsupported) > 0 {
 			outOfReach = append(outOfReach, r.Key+": "+strings.Join(uniq(r.Unsupported), "; "))
-			if r.HasContract {
+			if base.Functions[r.Key] && !*baselineMode {
+				// every obligation of this function was discharged on the unchanged tree; now the function cannot
+				// even be brought under its contract (a clause no longer binds, or the body left the supported subset)
+				nObl++
+				nViol++
+				rp := filepath.Join(replayDir, "UNVERIFIABLE."+sanitizeFile(r.Key)+".json")
+				b, _ := json.MarshalIndent(map[string]interface{}{"property": id, "obligation": r.Key + "#UNVERIFIABLE",
+					"detail": "the function's obligations were discharged on the unchanged tree; on this tree they cannot be generated", "reasons": uniq(r.Unsupported)}, "", " ")
+				os.WriteFile(rp, b, 0o644)
+				fmt.Printf("  failed obligation %s#UNVERIFIABLE :: %s\n", r.Key, strings.Join(uniq(r.Unsupported), "; "))
+				violLines = append(violLines, fmt.Sprintf("VIOLATION property=%s replay=%s no-failing-input-found", id, rp))
+			} else if r.HasContract {
 				fmt.Printf("ERROR out-of-reach %s: %s\n", r.Key, strings.Join(uniq(r.Unsupported), "; "))
 				exit = 3
 			}
@@ -470,6 +497,11 @@ func cmdCheck(args []string) int {
 	for _, ax := range sp.Axioms {
 		assumedContracts = append(assumedContracts, "axiom "+ax.Name+": "+ax.Text)
 	}
+	for _, ti := range sp.TypeInvs {
+		if ti.Assumed {
+			assumedContracts = append(assumedContracts, "data-structure invariant assumed, not checked at allocation: "+ti.Type+": "+ti.Text)
+		}
+	}
 	for _, a := range mods.FinalAssumptions {
 		assumedContracts = append(assumedContracts, a)
 	}
@@ -512,6 +544,9 @@ func cmdCheck(args []string) int {
 	full, _ := json.MarshalIndent(reports, "", " ")
 	os.WriteFile(filepath.Join(work, "obligations.json"), full, 0o644)
 	if *baselineMode {
+		for k := range base.Functions {
+			delete(base.Functions, k)
+		}
 		for k, ok := range passedFns {
 			if ok {
 				base.Functions[k] = true
@@ -587,6 +622,9 @@ func verifyLemmas(w *World, sp *Specs, mods *ModAnalysis, id, work string, timeo
 		// a lemma is verified in the context of an arbitrary function: use a tiny ctx on the first repo function
 		c := NewCtx(w, sp, mods, w.AllFuncs[0], nil)
 		c.key = "lemma." + lm.Name
+		for _, ax := range sp.Axioms {
+			c.extraUses = append(c.extraUses, ax.Name)
+		}
 		st := &State{heap: map[string]string{}, locals: nil, alloc: "alloc_entry", held: "0"}
 		c.declare("alloc_entry", "Int")
 		c.assume("true", "(> alloc_entry nglobals)")
